@@ -421,7 +421,7 @@ def run(ctx):
     execs = [from_tlc(s) for s in scripts]
     execs = [e for e in execs if len(e) > 4]
     random.Random(ctx.seed).shuffle(execs)
-    execs = execs[:500 if not thorough else 8000]
+    execs = execs[:700 if not thorough else 8000]
     ctx.extra["tlc_generated_scripts"] = len(execs)
     rng = random.Random(ctx.seed)
     mult = 1 if not thorough else 12
@@ -429,13 +429,13 @@ def run(ctx):
     # reproduction of the known finding first (DESIGN 3.3: always executed)
     execs.insert(0, ["RESET", "NEW 0 arr", "NEW 1 null", "ADDARR 0 1", "NEW 1 bool 1", "ADDARR 0 1", "SIZE 0", "RMARR 0 2", "SIZE 0", "RMARR 0 3",
                      "RMARR 0 1", "RMARR 0 1", "RMARR 0 0", "RMARR 0 0", "SIZE 0"])
-    for _ in range(220 * mult):
+    for _ in range(480 * mult):
         execs.append(ex_build(rng, rng.choice([1, 2, 3, 4, 4])))
-    for _ in range(120 * mult):
+    for _ in range(250 * mult):
         execs.append(ex_object(rng))
-    for _ in range(120 * mult):
+    for _ in range(250 * mult):
         execs.append(ex_array(rng, at_size=True))
-    for _ in range(260 * mult):
+    for _ in range(560 * mult):
         execs.append(ex_text(rng, rng.choice([0, 1, 2, 3, 4, 4])))
     nest = [ex_nest(rng, d) for d in ([NEST_LIMIT, NEST_LIMIT, NEST_LIMIT - 1, 100, 64, 30] if not thorough else [NEST_LIMIT] * 6 + [NEST_LIMIT - 1, 999, 500, 100, 100, 64, 64])]
     ctx.extra["driver_executions"] = len(execs) + len(nest) - ctx.extra["tlc_generated_scripts"]
